@@ -570,15 +570,19 @@ pub fn render_item(it: &Item, o: &RenderOpts, rng: &mut Rng, out: &mut String) {
                         out.push_str(&format!("{vind}#[typeshare({})]\n", ts.join(", ")));
                     }
                 }
+                // one variant in nine (chosen by its name, not by the random stream) is written as a raw identifier
+                // (`r#Started`, legal for any identifier and usual in generated code): the same variant to rustc and serde
+                let vident = if o.vary && v.ident.bytes().map(|b| b as usize).sum::<usize>() % 9 == 0 { format!("r#{}", v.ident) } else { v.ident.clone() };
+                let v_ident = &vident;
                 match &v.kind {
-                    VKind::Unit => out.push_str(&format!("{vind}{},\n", v.ident)),
-                    VKind::Newtype(t) => out.push_str(&format!("{vind}{}({}),\n", v.ident, t.render(rng, o.vary))),
+                    VKind::Unit => out.push_str(&format!("{vind}{},\n", v_ident)),
+                    VKind::Newtype(t) => out.push_str(&format!("{vind}{}({}),\n", v_ident, t.render(rng, o.vary))),
                     VKind::Tuple(ts) => {
                         let inner: Vec<String> = ts.iter().map(|t| t.render(rng, o.vary)).collect();
-                        out.push_str(&format!("{vind}{}({}),\n", v.ident, inner.join(", ")));
+                        out.push_str(&format!("{vind}{}({}),\n", v_ident, inner.join(", ")));
                     }
                     VKind::Struct(fs) => {
-                        out.push_str(&format!("{vind}{} {{\n", v.ident));
+                        out.push_str(&format!("{vind}{} {{\n", v_ident));
                         for f in fs {
                             // fields of struct variants have no visibility
                             let find = format!("{vind}    ");
